@@ -286,6 +286,7 @@ def main(argv):
     # ---- replay of refutations
     out_lines = []
     vio_records = []
+    demoted = []
     for o in violations:
         rp = None
         for prefix, spec in P.replays.items():
@@ -318,9 +319,18 @@ def main(argv):
         rec["failing_input"] = replayed
         path = os.path.join(HERE, "replays_out", pid, o.name.replace("/", "_").replace("@", "_at_")[:150] + ".json")
         json.dump(rec, open(path, "w"), indent=1, default=str)
+        internal = o.kind in ("inv-init", "inv-pres", "ghost-assert", "decreases", "lemma")
+        if internal and not replayed:
+            # a refuted *proof-internal* obligation (loop invariant, intermediate assertion) without any failing input of
+            # the real function is a failed proof, not a shown property violation: undecided (DESIGN 4)
+            undecided.append({"obligation": o.name, "reason": "internal proof obligation refuted by the solver, but the native "
+                              "contract check of the function found no failing input", "clause": o.note})
+            demoted.append(o)
+            continue
         suffix = "" if replayed else " no-failing-input-found"
         out_lines.append(f"VIOLATION property={pid} replay={path}{suffix}")
         vio_records.append(rec)
+    violations = [o for o in violations if o not in demoted]
     tried = {}
     for o in unknowns:
         c = getattr(o, "contract", None)
